@@ -233,6 +233,11 @@ pub fn dump(storage: &Storage, sites: &[Site], prefix: &str, out: &mut Vec<Strin
         if dev != expect_dev {
             fails.push(format!("C17 descendant events of span {i} are {dev:?}, expected the events of its descendants {expect_dev:?}"));
         }
+        iter_laws(&format!("children of span {i}"), || s.children(), |c| spos(c), fails);
+        iter_laws(&format!("events of span {i}"), || s.events(), |e| epos(e), fails);
+        iter_laws(&format!("follows_from of span {i}"), || s.follows_from(), |c| spos(c), fails);
+        walk_laws(&format!("descendants of span {i}"), || s.descendants(), |c| spos(c), fails);
+        walk_laws(&format!("descendant events of span {i}"), || s.descendant_events(), |e| epos(e), fails);
         // iterators: exact length, reversible
         let fwd: Vec<usize> = s.children().map(|c| spos(&c)).collect();
         let mut bwd: Vec<usize> = s.children().rev().map(|c| spos(&c)).collect();
@@ -279,6 +284,10 @@ pub fn dump(storage: &Storage, sites: &[Site], prefix: &str, out: &mut Vec<Strin
     if root_events != expect_root_events {
         fails.push(format!("C17 root events {root_events:?} are not exactly the events without a captured parent {expect_root_events:?}"));
     }
+    iter_laws("all_spans", || storage.all_spans(), |c| spos(c), fails);
+    iter_laws("root_spans", || storage.root_spans(), |c| spos(c), fails);
+    iter_laws("all_events", || storage.all_events(), |e| epos(e), fails);
+    iter_laws("root_events", || storage.root_events(), |e| epos(e), fails);
     // all_* iterators
     let n = storage.all_spans().len();
     let mut back: Vec<usize> = storage.all_spans().rev().map(|s| spos(&s)).collect();
@@ -299,6 +308,101 @@ pub fn dump(storage: &Storage, sites: &[Site], prefix: &str, out: &mut Vec<Strin
             if eq != (i == j) || ord != Some(i.cmp(&j)) {
                 fails.push(format!("C17 spans {i} and {j}: == is {eq}, partial_cmp is {ord:?}"));
             }
+        }
+    }
+}
+
+/// C17 "all iterators report exact lengths and yield the same items backwards as forwards", for
+/// every way the standard iterator API can consume them (overridable methods included).
+fn iter_laws<I, T>(label: &str, mk: impl Fn() -> I, pos: impl Fn(&T) -> usize, fails: &mut Vec<String>)
+where
+    I: DoubleEndedIterator<Item = T> + ExactSizeIterator,
+{
+    let fwd: Vec<usize> = mk().map(|x| pos(&x)).collect();
+    let n = fwd.len();
+    let mut bad = |what: String| {
+        if fails.len() < 50 {
+            fails.push(format!("C17 iterator {label} ({fwd:?}): {what}"));
+        }
+    };
+    if mk().len() != n || mk().size_hint() != (n, Some(n)) || mk().count() != n {
+        bad(format!("len {} / size_hint {:?} / count {} for {n} items", mk().len(), mk().size_hint(), mk().count()));
+    }
+    let mut bwd: Vec<usize> = mk().rev().map(|x| pos(&x)).collect();
+    bwd.reverse();
+    if bwd != fwd {
+        bad(format!("backwards it yields {bwd:?} (reversed)"));
+    }
+    if mk().last().map(|x| pos(&x)) != fwd.last().copied() {
+        bad("last() is not the last item".into());
+    }
+    for k in 0..=n {
+        let mut it = mk();
+        let got = it.nth(k).map(|x| pos(&x));
+        let rest: Vec<usize> = it.map(|x| pos(&x)).collect();
+        if got != fwd.get(k).copied() || rest != fwd.get(k + 1..).unwrap_or(&[]) {
+            bad(format!("nth({k}) = {got:?}, then {rest:?}"));
+        }
+        let mut it = mk();
+        let got = it.nth_back(k).map(|x| pos(&x));
+        let left = it.len();
+        let rest: Vec<usize> = it.map(|x| pos(&x)).collect();
+        let want = if k < n { Some(fwd[n - 1 - k]) } else { None };
+        let want_rest: &[usize] = if k < n { &fwd[..n - 1 - k] } else { &[] };
+        if got != want || rest != want_rest || left != want_rest.len() {
+            bad(format!("nth_back({k}) = {got:?}, then {rest:?} (len {left})"));
+        }
+        let skipped: Vec<usize> = mk().rev().skip(k).map(|x| pos(&x)).collect();
+        let mut want_sk: Vec<usize> = fwd[..n.saturating_sub(k)].to_vec();
+        want_sk.reverse();
+        if skipped != want_sk {
+            bad(format!("rev().skip({k}) = {skipped:?}"));
+        }
+    }
+    // from both ends towards the middle: every item once
+    let (mut it, mut front, mut back, mut turn) = (mk(), vec![], vec![], false);
+    loop {
+        let x = if turn { it.next_back() } else { it.next() };
+        match x {
+            Some(x) if turn => back.push(pos(&x)),
+            Some(x) => front.push(pos(&x)),
+            None => break,
+        }
+        if it.len() != n - front.len() - back.len() {
+            bad("len does not shrink by one per item".into());
+            break;
+        }
+        turn = !turn;
+    }
+    back.reverse();
+    front.extend(back);
+    if front != fwd {
+        bad(format!("alternating next / next_back yields {front:?}"));
+    }
+    let stepped: Vec<usize> = mk().step_by(2).map(|x| pos(&x)).collect();
+    if stepped != fwd.iter().copied().step_by(2).collect::<Vec<_>>() {
+        bad(format!("step_by(2) = {stepped:?}"));
+    }
+}
+
+/// The forward-only descendant walks: `size_hint` brackets the real length, `nth` / `count` / `last` agree.
+fn walk_laws<I, T>(label: &str, mk: impl Fn() -> I, pos: impl Fn(&T) -> usize, fails: &mut Vec<String>)
+where
+    I: Iterator<Item = T>,
+{
+    let fwd: Vec<usize> = mk().map(|x| pos(&x)).collect();
+    let n = fwd.len();
+    let (lo, hi) = mk().size_hint();
+    if lo > n || hi.map_or(false, |h| h < n) || mk().count() != n || mk().last().map(|x| pos(&x)) != fwd.last().copied() {
+        fails.push(format!("C17 iterator {label} ({fwd:?}): size_hint ({lo}, {hi:?}) / count / last disagree with its {n} items"));
+    }
+    for k in 0..=n {
+        let mut it = mk();
+        let got = it.nth(k).map(|x| pos(&x));
+        let rest: Vec<usize> = it.map(|x| pos(&x)).collect();
+        if got != fwd.get(k).copied() || rest != fwd.get(k + 1..).unwrap_or(&[]) {
+            fails.push(format!("C17 iterator {label} ({fwd:?}): nth({k}) = {got:?}, then {rest:?}"));
+            break;
         }
     }
 }
